@@ -20,8 +20,8 @@
 (*   delta (ChallengeDelta)  the point of the RE Horner recurrence           *)
 (* Terms transcribed (selector * expression = 0 on every row):              *)
 (*   LastLdc  * SLDC[NS-1]                                                   *)
-(*   InitSre  * SLDC[0]            (the code constrains the FIRST partial    *)
-(*   InitSre  * RE                  polynomial: constant InitOn = "first")   *)
+(*   InitSre  * SLDC[k0]           k0 given by the constant InitOn, see below *)
+(*   InitSre  * RE                                                            *)
 (*   End_t    * (RE - LutPoly_t(b)(delta))        one selector per table     *)
 (*   TransSre * (RE - Horner(RE_next, delta, lookup combos of the row))      *)
 (*   TransSre * (prod_chunk(alpha - c_i) * (SLDC[k] - prev)                  *)
@@ -46,8 +46,18 @@
 (*    wrong, at most BoundLD non-pole pairs (a, alpha) admit partial SLDC    *)
 (*    polynomials (Schwartz-Zippel, see BoundRE, BoundLD).                             *)
 (* Disabled = one term dropped: each such run must violate Sound (canary).   *)
-(* InitOn = "first" with NS = 2 is the code as it stands: the value the      *)
-(* first transition reads, SLDC[NS-1] on the Noop row, is then free.         *)
+(*                                                                         *)
+(* InitOn: which partial polynomial the InitSre term pins to 0 on the Noop  *)
+(* row.  The first transition reads SLDC[NS-1] of that row, so with         *)
+(* InitOn = "first" and NS >= 2 the start of the chain is a free value c,   *)
+(* the chain ends with c + Sum - LDC, and c = LDC - Sum satisfies LastLdc   *)
+(* for ANY looking pairs: TLC refutes Sound (cfg LookupArg_impl_first).     *)
+(* This was the pinned code (z_x_lookup_sldcs[0]) until /repo commit        *)
+(* 96e3ecf; the replay strategy `ext_shift` is this counterexample run      *)
+(* against the real prover/verifier (it produced accepted proofs for        *)
+(* looked-up pairs outside the table).  InitOn = "last" is the repaired     *)
+(* code.  The driver probes the crate's check_lookup_constraints on unit    *)
+(* vectors and checks the variant the code actually implements.             *)
 (***************************************************************************)
 EXTENDS Integers, Sequences, FiniteSets, TLC
 
